@@ -2,8 +2,9 @@
 
 
 def compute(rtdc_ds):
-    px = rtdc_ds.config["imaging"]["pixel size"]
-    a = rtdc_ds["circ"] / rtdc_ds["area_um"] * px
+    # depends on two *computed* features (area_um <- pixel size, time <- frame rate) without naming their
+    # configuration keys itself: a change of those keys reaches this feature only through the upstream features
+    a = rtdc_ds["circ"] / rtdc_ds["area_um"] + rtdc_ds["time"]
     b = rtdc_ds["circ"] * rtdc_ds["tmp_c06"]
     return {"c06_a": a, "c06_b": b}
 
@@ -14,8 +15,8 @@ info = {
     "long description": "two scalar outputs; depends on a computed feature, a temporary feature and a config key",
     "feature names": ["c06_a", "c06_b"],
     "feature labels": ["C06 A", "C06 B"],
-    "features required": ["circ", "area_um", "tmp_c06"],
-    "config required": [["imaging", ["pixel size"]]],
+    "features required": ["circ", "area_um", "time", "tmp_c06"],
+    "config required": [],
     "method check required": lambda x: True,
     "scalar feature": [True, True],
     "version": "0.1.0",
